@@ -475,6 +475,23 @@ def mutation_cases(draw, tier):
             "Tall": np.ascontiguousarray(Tall), "T3": T3, "img": img, "psf": psf, "seed": draw(gen.seeds())}
 
 
+def _variant(case):
+    """A different in-domain data set of the same shapes (Hermitian stays Hermitian, systems stay well conditioned)."""
+    c = dict(case)
+    c["A"] = 0.5 * case["A"][::-1].copy() + 0.25
+    c["B"] = case["B"][:, ::-1].copy() * 0.75
+    c["Sq"] = case["Sq"].copy() * 0.5 + 0.125
+    n = case["H"].shape[0]
+    c["H"] = case["H"] * 0.5 + ref.qeye(n)
+    c["H2"] = c["H"]
+    c["Sys"] = case["Sys"] + ref.qeye(case["Sys"].shape[0])
+    c["b"] = case["b"] * 0.5 + 0.25
+    c["Tall"] = 0.5 * case["Tall"][::-1].copy() + 0.25
+    c["T3"] = case["T3"][::-1].copy() * 0.5
+    c["img"] = case["img"][::-1].copy() * 0.5 + 0.125
+    return c
+
+
 def _hash_args(args):
     hs = []
     for a in args:
@@ -508,6 +525,27 @@ def check_mutation(case):
         ok, r2 = out.call(f"{name}:second call", fn, *args2)
     if ok:
         out.true(f"{name}:repeating the call repeats the result", canon(r1) == canon(r2), "results differ bit-wise")
+    # same buffers, new contents: results must depend on the VALUE of the arguments, not on object identity
+    case2 = _variant(case)
+    args_new = build(case2)
+    compatible = len(args_new) == len(args) and all(
+        (isinstance(a, np.ndarray) and isinstance(b_, np.ndarray) and a.shape == b_.shape and a.dtype == b_.dtype)
+        or (not isinstance(a, np.ndarray) and not isinstance(b_, np.ndarray) and not isinstance(a, L.utils.SparseQuaternionMatrix))
+        for a, b_ in zip(args, args_new))
+    if compatible and any(isinstance(a, np.ndarray) for a in args):
+        for a, b_ in zip(args, args_new):
+            if isinstance(a, np.ndarray):
+                np.copyto(a, b_)
+        np.random.seed(case["seed"])
+        with contextlib.redirect_stdout(io.StringIO()):
+            ok3, r3 = out.call(f"{name}:call on reused buffers", fn, *args)
+        np.random.seed(case["seed"])
+        with contextlib.redirect_stdout(io.StringIO()):
+            ok4, r4 = out.call(f"{name}:call on fresh copies of the same values", fn, *build(case2))
+        if ok3 and ok4:
+            out.true(f"{name}:result depends on argument values, not on object identity", canon(r3) == canon(r4),
+                     "overwriting the argument buffers in place and calling again differs from a call on fresh arrays")
+            out.label("buffer_reuse_checked")
     big = [a for a in args if isinstance(a, np.ndarray) and a.ndim >= 2 and min(a.shape[:2]) >= 2]
     out.nontrivial = bool(big) or any(isinstance(a, L.utils.SparseQuaternionMatrix) for a in args)
     return out
